@@ -693,7 +693,8 @@ theorem runBatches_inv (S : Stats κ) (W : Name → Nat → SimOut κ) (progs : 
     exact ih (b + 1) _ _ (step_inv S W progs hg σ hσ st done h b _ (batchSims b c) (nodup_batchSims b c))
 
 theorem init_inv (S : Stats κ) (W : Name → Nat → SimOut κ) (progs : List Name) :
-    Inv S W progs { dirs := progs.map fun p => (p, []), ts := [], emis := [] } [] := by
+    Inv S W progs (initSt progs) [] := by
+  unfold initSt
   constructor
   · simp [List.map_map, Function.comp_def]
   · intro pd hpd e he
@@ -702,6 +703,124 @@ theorem init_inv (S : Stats κ) (W : Name → Nat → SimOut κ) (progs : List N
     simp at he
   · simp [canonTs]
   · simp [canonEmis]
+
+end
+
+/-! ### which inputs the real code rejects -/
+
+theorem any_congr_mem {β : Type} (l : List β) (f g : β → Bool) (h : ∀ x ∈ l, f x = g x) : l.any f = l.any g := by
+  induction l with
+  | nil => rfl
+  | cons a l ih =>
+    simp only [List.any_cons]
+    rw [h a (by simp), ih (fun x hx => h x (by simp [hx]))]
+
+section
+variable {κ : Type}
+
+theorem rejectsListing_batch (suf : Name) (ok : κ → Bool) (W : Name → Nat → SimOut κ) (p : Name)
+    (old : List (File κ)) (hold : ∀ e ∈ old, isKept e.name = true) (sims : List Nat)
+    {l : List (File κ)} (hl : l.Perm (batchDir W p old sims)) :
+    rejectsListing suf ok l = sims.any fun s => rejectsListing suf ok (simFiles p s (W p s)) := by
+  unfold rejectsListing
+  rw [hl.any_eq]
+  unfold batchDir
+  rw [List.any_append, List.any_flatMap]
+  have : (old.any fun e => hasSuffix suf e.name && !isKept e.name && !ok e.content) = false := by
+    rw [List.any_eq_false]
+    intro e he
+    simp [hold e he]
+  rw [this, Bool.false_or]
+
+theorem rejects_simFiles_ts (ok : κ → Bool) (p : Name) (s : Nat) (o : SimOut κ) (hk : isKept p = false) :
+    rejectsListing tsSuffix ok (simFiles p s o) = !ok o.ts := by
+  unfold rejectsListing simFiles
+  cases o.est <;> cases o.rep <;>
+    simp [hasSuffix_mkName_self, sfx_ts_emis, sfx_ts_est, sfx_ts_rep, isKept_mkName, hk]
+
+theorem rejects_simFiles_emis (ok : κ → Bool) (p : Name) (s : Nat) (o : SimOut κ) (hk : isKept p = false) :
+    rejectsListing emisSuffix ok (simFiles p s o) = !ok o.emis := by
+  unfold rejectsListing simFiles
+  cases o.est <;> cases o.rep <;>
+    simp [hasSuffix_mkName_self, sfx_emis_ts, sfx_emis_est, sfx_emis_rep, isKept_mkName, hk]
+
+theorem rejects_simFiles_est (ok : κ → Bool) (p : Name) (s : Nat) (o : SimOut κ) (hk : isKept p = false) :
+    rejectsListing estSuffix ok (simFiles p s o) = ((o.est.map fun e => !ok e).getD false) := by
+  unfold rejectsListing simFiles
+  cases o.est <;> cases o.rep <;>
+    simp [hasSuffix_mkName_self, sfx_est_ts, sfx_est_emis, sfx_est_rep, isKept_mkName, hk]
+
+/-- (p, s) wrote a file the real code raises on -/
+def badSim (S : Stats κ) (W : Name → Nat → SimOut κ) (p : Name) (s : Nat) : Bool :=
+  !S.okTs (W p s).ts || !S.okEmis (W p s).emis || (((W p s).est.map fun e => !S.okEst e).getD false)
+
+def badProg (S : Stats κ) (W : Name → Nat → SimOut κ) (sims : List Nat) (p : Name) : Bool :=
+  (sims.any fun s => !S.okTs (W p s).ts) || (sims.any fun s => !S.okEmis (W p s).emis)
+    || (sims.any fun s => (((W p s).est.map fun e => !S.okEst e).getD false))
+
+theorem badProg_eq_false (S : Stats κ) (W : Name → Nat → SimOut κ) (sims : List Nat) (p : Name) :
+    badProg S W sims p = false ↔ ∀ s ∈ sims, badSim S W p s = false := by
+  simp only [badProg, badSim, Bool.or_eq_false_iff, List.any_eq_false]
+  constructor
+  · rintro ⟨⟨h1, h2⟩, h3⟩ s hs
+    exact ⟨⟨by simpa using h1 s hs, by simpa using h2 s hs⟩, by simpa using h3 s hs⟩
+  · intro h
+    exact ⟨⟨fun s hs => by simpa using (h s hs).1.1, fun s hs => by simpa using (h s hs).1.2⟩,
+      fun s hs => by simpa using (h s hs).2⟩
+
+end
+
+section
+variable {κ : Type}
+
+theorem rejectsVisit_batch (S : Stats κ) (W : Name → Nat → SimOut κ) (progs : List Name) (hg : GoodProgs progs)
+    (σ : Sched κ) (hσ : σ.Valid) (st : St κ) (done : List Nat) (h : Inv S W progs st done) (b : Nat)
+    (sims : List Nat) :
+    rejectsVisit S (visitOf σ b (writeBatch W sims st)) = progs.any (badProg S W sims) := by
+  obtain ⟨hd, hts, hem, hes, _⟩ := hσ
+  have hmem : ∀ pd ∈ st.dirs, pd.1 ∈ progs := by
+    intro pd hpd
+    rw [← h.names]; exact List.mem_map.mpr ⟨pd, hpd, rfl⟩
+  have hnl1 : ∀ pd ∈ (writeBatch W sims st).dirs, pd.1 ≠ logsName := by
+    intro pd hpd
+    rw [writeBatch_dirs, List.mem_map] at hpd
+    obtain ⟨q, hq, rfl⟩ := hpd
+    exact (hg q.1 (hmem q hq)).2
+  unfold rejectsVisit visitOf
+  rw [List.any_map, progDirs_eq _ hnl1, (hd b _).any_eq, writeBatch_dirs, List.any_map, ← h.names, List.any_map]
+  apply any_congr_mem
+  intro pd hpd
+  have hk := (hg _ (hmem pd hpd)).1
+  simp only [Function.comp, badProg]
+  rw [rejectsListing_batch tsSuffix S.okTs W pd.1 pd.2 (h.kept pd hpd) sims (hts b _ _),
+    rejectsListing_batch emisSuffix S.okEmis W pd.1 pd.2 (h.kept pd hpd) sims (hem b _ _),
+    rejectsListing_batch estSuffix S.okEst W pd.1 pd.2 (h.kept pd hpd) sims (hes b _ _)]
+  simp only [rejects_simFiles_ts _ _ _ _ hk, rejects_simFiles_emis _ _ _ _ hk, rejects_simFiles_est _ _ _ _ hk]
+
+/-- no call of the batch loop raises iff no program-simulation of any batch wrote a rejected file -/
+theorem runRejects_eq_false (S : Stats κ) (W : Name → Nat → SimOut κ) (progs : List Name) (hg : GoodProgs progs)
+    (keepAll : Bool) (σ : Sched κ) (hσ : σ.Valid) (cs : List Nat) :
+    ∀ (b : Nat) (st : St κ) (done : List Nat), Inv S W progs st done →
+      (runRejects S W keepAll σ b cs st = false ↔ ∀ p ∈ progs, ∀ s ∈ allSims b cs, badSim S W p s = false) := by
+  induction cs with
+  | nil => intro b st done _; simp [runRejects, allSims]
+  | cons c cs ih =>
+    intro b st done h
+    simp only [runRejects, allSims, Bool.or_eq_false_iff]
+    rw [rejectsVisit_batch S W progs hg σ hσ st done h b (batchSims b c),
+      ih (b + 1) _ _ (step_inv S W progs hg σ hσ st done h b _ (batchSims b c) (nodup_batchSims b c))]
+    simp only [List.any_eq_false, List.mem_append]
+    constructor
+    · rintro ⟨h1, h2⟩ p hp s hs
+      rcases hs with hs | hs
+      · have := h1 p hp
+        rw [Bool.not_eq_true, badProg_eq_false] at this
+        exact this s hs
+      · exact h2 p hp s hs
+    · intro hall
+      refine ⟨fun p hp => ?_, fun p hp s hs => hall p hp s (Or.inr hs)⟩
+      rw [Bool.not_eq_true, badProg_eq_false]
+      exact fun s hs => hall p hp s (Or.inl hs)
 
 end
 
@@ -891,7 +1010,7 @@ theorem share_closed (v : Int) (st en : Date) (y : Nat) :
           else if en.y = y then ((en.ord - (⟨y, 1, 1⟩ : Date).ord + 1 : Int) : Rat) / ((en.ord - st.ord + 1 : Int) : Rat)
           else (((⟨y, 12, 31⟩ : Date).ord - (⟨y, 1, 1⟩ : Date).ord + 1 : Int) : Rat) / ((en.ord - st.ord + 1 : Int) : Rat))
       else 0 := by
-  unfold yearlyShare
+  unfold yearlyShare rowShare
   by_cases h : st.y ≤ y ∧ y ≤ en.y
   · simp only [List.filterMap_cons, List.filterMap_nil, List.map_cons, List.map_nil, h, and_self, if_true,
       decide_true, Bool.and_self]
